@@ -46,6 +46,13 @@ class Grammar:
         for name, fi in cls.methods.items():
             self.methods[name] = fi.node
         self.functions = {name: fi.node for name, fi in pm.functions.items()}
+        # names that denote the parser object: `self`, and any local of a module-level function bound to `Parser(...)`
+        self.self_names = {"self"}
+        for fn in self.functions.values():
+            for n in ast.walk(fn):
+                if isinstance(n, ast.Assign) and len(n.targets) == 1 and isinstance(n.targets[0], ast.Name) and isinstance(n.value, ast.Call) \
+                        and isinstance(n.value.func, ast.Name) and n.value.func.id == "Parser":
+                    self.self_names.add(n.targets[0].id)
         self.tokcls = {c.name: [getattr(b, "name", None) or b[1] for b in c.bases] for c in tm.classes.values()}
         self.const_tokens = sorted(k for k, b in self.tokcls.items() if b == ["ConstToken"])
         self.value_tokens = sorted(k for k, b in self.tokcls.items() if b == ["Token"])
@@ -191,7 +198,7 @@ class Interp:
         return [(s, ('tuple', tuple(v))) for s, v in res]
 
     def ev_Attribute(self, e, st):
-        if isinstance(e.value, ast.Name) and e.value.id in SELF_NAMES:
+        if isinstance(e.value, ast.Name) and e.value.id in self.g.self_names:
             if e.attr in self.config:
                 return [(st, ('const', self.config[e.attr]))]
             if e.attr in self.g.methods:
@@ -250,7 +257,7 @@ class Interp:
     def ev_Call(self, e, st):
         f = e.func
         # self.<method>(...)
-        if isinstance(f, ast.Attribute) and isinstance(f.value, ast.Name) and f.value.id in SELF_NAMES:
+        if isinstance(f, ast.Attribute) and isinstance(f.value, ast.Name) and f.value.id in self.g.self_names:
             return self.call_self(f.attr, e, st)
         if isinstance(f, ast.Attribute) and isinstance(f.value, ast.Name) and f.value.id == '_ast':
             return self.construct(f.attr, e, st)
